@@ -198,6 +198,11 @@ def run_tlc(module, cfg, wd, workers=4, timeout=600, env_extra=None, simulate=No
         jopts += " -Dtlc2.tool.queue.IStateQueue=StateDeque"
     if library:
         jopts += f" -DTLA-Library={library}"
+    # (TLC leaves a tlc-<n> directory in java.io.tmpdir behind on every run: keep them out of /tmp and remove them with the run)
+    jtmp = os.path.join(wd, "jtmp_" + re.sub(r"\W", "_", cfg))
+    shutil.rmtree(jtmp, ignore_errors=True)
+    os.makedirs(jtmp, exist_ok=True)
+    jopts += f" -Djava.io.tmpdir={jtmp}"
     env["JAVA_TOOL_OPTIONS"] = jopts
     if env_extra:
         env.update(env_extra)
@@ -225,6 +230,7 @@ def run_tlc(module, cfg, wd, workers=4, timeout=600, env_extra=None, simulate=No
         raise ToolError(f"cannot run TLC: {e}")
     out = p.stdout
     shutil.rmtree(meta, ignore_errors=True)
+    shutil.rmtree(jtmp, ignore_errors=True)
     with open(os.path.join(wd, "tlc_" + re.sub(r"\W", "_", cfg) + ".log"), "w") as f:
         f.write(out)
     res = {"rc": p.returncode, "out": out, "wall_s": time.time() - t0, "states": 0, "distinct": 0,
